@@ -288,7 +288,7 @@ def check_state(scn, st):
         return verdict(False, st, cls={'kind': 'exception', 'exc': r.exc_type},
                        msg='conversion failed: ' + r.brief(), out='err:' + r.exc_type)
     t4 = t4read.parse(r.t4)
-    cls, msg = oracle.structural_cls(t4)
+    cls, msg = oracle.structural_cls(t4, st.options)
     if cls:
         return verdict(False, st, cls=cls, msg=msg, out=sha(r.body))
     P, info = oracle.probe_points(t4, c01.ref_planes(st.used))
